@@ -232,6 +232,10 @@ def obligations(tier):
                                       carveouts={"join_helper_names": "no column is named __INDEX__ or <left column>_right"}))
     from . import c16
 
+    from . import c14
+
+    obs.append(Obligation("C09/R8/stale_references", "R8", "references to columns that no longer exist in a table (dropped by summarize, hidden by a union, out of scope after alias) are rejected in every verb, also in join conditions (= C14 rules G6)", c14.g_rules_run,
+                          functions=[H.fn_info(verbs_mod.join)], bounded="the C14 rule set (rule x position x 4 histories x 2 backends)"))
     obs.append(Obligation("C09/R7/collect", "R7", "references (also those taken before a rename / an automatic join suffix) denote the same column with the same data after collect() (native)", c16._conc("collect() on 13 pipelines x keep_col_refs", c16.x3_check),
                           functions=[H.fn_info(verbs_mod.collect), H.fn_info(H.table_impl_mod.TableImpl.from_resource)], bounded="13 concrete pipelines on two frames (native Polars execution)"))
     obs.append(Obligation("C09/R6/self_join_sides", "R6", "aliased self-join: a reference through either table object denotes that side (native)", c16._conc("references through either table object of an aliased self-join denote that side", c16.x5b_check),
